@@ -24,8 +24,12 @@ class BadDistribution(Exception):
 class ScriptedRandom:
     """Implements the RandomState surface Cirq uses (choice / random / randint)."""
 
-    def __init__(self, prefix=(), bulk_rng=None, default_last=False, default_first=False):
+    def __init__(self, prefix=(), bulk_rng=None, default_last=False, default_first=False, default_mix=False):
         self.prefix = list(prefix)
+        # default_mix: beyond the prefix a fixed pseudo-random (reproducible) alternative, for loops whose exit outcome
+        # differs from pass to pass, so that no constant default can guarantee termination
+        self.default_mix = default_mix
+        self._mix = 0x2545F491
         # beyond the prefix: the most likely outcome, or (for loops that must terminate) always the last / first one
         self.default_last = default_last
         self.default_first = default_first
@@ -46,7 +50,11 @@ class ScriptedRandom:
                 raise BadDistribution("scripted decision %d out of range for %r (non-deterministic replay)" % (d, weights))
         else:
             # beyond the prefix follow the most likely outcome (never a numerically-zero one)
-            d = alts[-1] if self.default_last else (alts[0] if self.default_first else max(alts, key=lambda j: weights[j]))
+            if self.default_mix:
+                self._mix = (self._mix * 1103515245 + 12345) & 0x7FFFFFFF
+                d = alts[(self._mix >> 16) % len(alts)]
+            else:
+                d = alts[-1] if self.default_last else (alts[0] if self.default_first else max(alts, key=lambda j: weights[j]))
         self.log.append((kind, tuple(float(w) for w in weights), d, alts))
         return d
 
@@ -207,7 +215,7 @@ class ExploreResult:
         return sum(p for p, _, _ in self.paths)
 
 
-def explore(run, max_paths=4096, min_branch=1e-9, min_path=0.0, default_last=False, default_first=False):
+def explore(run, max_paths=4096, min_branch=1e-9, min_path=0.0, default_last=False, default_first=False, default_mix=False):
     """run(rng) -> hashable outcome.  Enumerates every decision path of the real code.
 
     min_branch: alternatives of a single draw lighter than this are not forced;
@@ -219,7 +227,7 @@ def explore(run, max_paths=4096, min_branch=1e-9, min_path=0.0, default_last=Fal
             res.over_budget = True
             break
         prefix = stack.pop()
-        rng = ScriptedRandom(prefix, default_last=default_last, default_first=default_first)
+        rng = ScriptedRandom(prefix, default_last=default_last, default_first=default_first, default_mix=default_mix)
         try:
             outcome = run(rng)
         except UnscriptedDraw:
